@@ -191,6 +191,11 @@ func (c *Class) Evaluation(
 	ctx.SetFrame(nextFrame)
 	ctx.SetClass(class)
 
+	// a body starts public, also when it is written inside a private or
+	// protected section of an enclosing class
+	ctx.EndPrivate()
+	ctx.EndProtected()
+
 	//extends
 	nextT, err = p.Read()
 	if err != nil {
